@@ -114,6 +114,21 @@ pub fn run_op(line: &str) -> String {
         "enc" if toks[1] == "v5" => crate::pktops::v5_enc(&toks[2..]),
         "poll" if toks[1] == "v5" => crate::pktops::v5_poll(&unhex(toks[2]).unwrap(), crate::pktops::parse_sched(toks[3]).unwrap(), crate::pktops::parse_term(toks[4]).unwrap()),
         "cwp" if toks[1] == "v5" => crate::pktops::v5_cwp(toks[2], toks[3].parse().unwrap(), &unhex(toks[4]).unwrap()),
+        "valid" => {
+            // the generator only emits `valid` ops for packets it built inside the valid domain and
+            // that the real encoder accepts: the model must agree (valid=1) and round-trip (rt=1)
+            let ok = match toks[1] {
+                "v3" => match crate::v3text::parse(&toks[2..]) {
+                    crate::v3text::Build::Ok(p) => p.encode().is_ok(),
+                    _ => false,
+                },
+                _ => match crate::v5text::parse(&toks[2..]) {
+                    crate::v3text::Build::Ok(p) => p.encode().is_ok(),
+                    _ => false,
+                },
+            };
+            if ok { "valid=1 rt=1".into() } else { "outside".into() }
+        }
         other => format!("bad-op {}", other),
     }
 }
